@@ -7,7 +7,7 @@ the JSON representation `serde` derives for them, `wire` = what `serde_json` doe
 way to text and back (a non-finite float becomes `null`), `serialize`/`deserialize` = `codec.rs`
 including the format auto-detection, and the `Event` ↔ `SerializableEvent` conversion.
 All statements are for every value tree: any nesting depth, any string, any float including
-NaN/±∞/−0.0, any timestamp including sub-millisecond and negative ones.
+NaN/±∞/−0.0.  Event timestamps: see `event_roundtrip_counterexample` / `event_roundtrip_partial`.
 -/
 namespace Varpulis.Props.C20
 open Varpulis.Ckpt
@@ -53,21 +53,47 @@ theorem empty_data_is_an_error (binaryCodec : Bool) : deserialize binaryCodec de
 theorem value_roundtrip (v : Val) : (decSV (wire (encSV (v2s v)))).map s2v = some v := by
   rw [wire_clean _ (clean_encSV _), decSV_encSV]; simp [s2v_v2s]
 
-/-- every event — any timestamp, sub-millisecond and negative included — is restored equal -/
-theorem event_roundtrip (e : Event) : (decSE (wire (encSE (serOfEvent e)))).map eventOfSer = some e := by
+/-! ### events: the full-strength statement is false (finding `C20-submillisecond-event-timestamps`)
+
+The property asks for `∀ e, (decSE (wire (encSE (serOfEvent e)))).map eventOfSer = some e`.
+`SerializableEvent` carries the timestamp in whole milliseconds only (the repair needs a new public
+field, which an existing test's struct literal forbids), so this holds exactly for the events
+whose timestamp is a whole number of milliseconds. -/
+
+/-- what does come back, for **every** event: the same event with its timestamp cut down to the
+millisecond (floor, also before 1970) -/
+theorem event_roundtrip_truncates (e : Event) :
+    (decSE (wire (encSE (serOfEvent e)))).map eventOfSer = some e.truncMs := by
   rw [wire_clean _ (clean_encSE _), decSE_encSE]
-  obtain ⟨ty, t, d⟩ := e
-  simp only [eventOfSer, serOfEvent, s2vM_v2sM, Option.map_some, ofMs_msOf_add]
+  simp [eventOfSer_serOfEvent]
+
+/-- the negation of the full-strength statement, with its witnesses: 1 ns after the epoch comes
+back at the epoch, 1 ns before it a whole millisecond earlier -/
+theorem event_roundtrip_counterexample :
+    ¬ (∀ e : Event, (decSE (wire (encSE (serOfEvent e)))).map eventOfSer = some e)
+    ∧ (eventOfSer (serOfEvent { etype := "A", ts := 1, data := [] })).ts = 0
+    ∧ (eventOfSer (serOfEvent { etype := "A", ts := -1, data := [] })).ts = -1000000 := by
+  refine ⟨?_, by simp [eventOfSer, serOfEvent, ofMs, msOf], by simp [eventOfSer, serOfEvent, ofMs, msOf]⟩
+  intro h
+  have h1 := h { etype := "A", ts := 1, data := [] }
+  rw [event_roundtrip_truncates] at h1
+  have := congrArg (fun o => o.map Event.ts) h1
+  simp [Event.truncMs, ofMs, msOf] at this
+
+/-- the guarded statement: every event whose timestamp is a whole number of milliseconds — any
+values, any strings, negative timestamps included — is restored equal -/
+theorem event_roundtrip_partial (e : Event) (h : e.whole = true) :
+    (decSE (wire (encSE (serOfEvent e)))).map eventOfSer = some e := by
+  rw [wire_clean _ (clean_encSE _), decSE_encSE]
+  simp [event_rt_whole e h]
+
+/-- the guard is satisfiable by a non-trivial event -/
+example : ({ etype := "T", ts := -1700000000123000000, data := [("x", .float .nan), ("m", .map [("k", .arr [.null])])] } : Event).whole = true := by
+  decide
 
 /-- a checkpoint written before the repair (`{"Float":null}` for NaN/±∞) is readable again: NaN -/
 theorem legacy_null_float_is_readable : decSV (.obj [("Float", .null)]) = some (.float .nan) := by
   simp [decSV, decF]
-
-/-- a `SerializableEvent` written before the repair (no sub-millisecond field) is still readable -/
-theorem legacy_event_is_readable :
-    decSE (.obj [("event_type", .str "A"), ("timestamp_ms", .int 5), ("fields", .obj [])])
-      = some { etype := "A", tsMs := 5, subNs := 0, fields := [] } := by
-  simp [decSE, req, dflt, List.lookup, decStr, decInt, decMap]
 
 /-- The defect repaired by `fix: non-finite floats in checkpoints`: with the derived
 representation the writer turns NaN/±∞ into `null`, which the derived reader rejects. -/
@@ -75,14 +101,6 @@ theorem derived_float_representation_defect :
     decFOld (wire (encFOld .nan)) = none ∧ decFOld (wire (encFOld .pinf)) = none
       ∧ decFOld (wire (encFOld .ninf)) = none := by
   simp [decFOld, encFOld, wire, F64.isFinite]
-
-/-- The defect repaired by `fix: sub-millisecond part of event timestamps`: the old conversion
-restored an event stamped 1 ns after the epoch at the epoch, and one stamped 1 ns before it a
-whole millisecond earlier. -/
-theorem millisecond_truncation_defect :
-    (eventOfSerOld (serOfEvent { etype := "A", ts := 1, data := [] })).ts = 0
-      ∧ (eventOfSerOld (serOfEvent { etype := "A", ts := -1, data := [] })).ts = -1000000 := by
-  simp [eventOfSerOld, serOfEvent, ofMs, msOf]
 
 /-- non-vacuity: a nested value with every awkward ingredient goes through the encoder and back -/
 example :
